@@ -9,10 +9,15 @@
 package main
 
 import (
+	"bufio"
 	"bytes"
 	"fmt"
 	"io"
 	"math"
+	"os"
+	"os/exec"
+	"runtime"
+	"runtime/debug"
 	"strconv"
 	"strings"
 	"syscall"
@@ -647,6 +652,7 @@ func (o OptW[H, T, P]) WriteTo(w io.Writer) (int64, error) {
 }
 
 var optMode int
+
 func (o *OptW[H, T, P]) ReadFrom(r io.Reader) (int64, error) {
 	var h H
 	b := h.has()
@@ -816,7 +822,6 @@ func universe() (leaves, comps []Ty) {
 	return
 }
 
-
 // ---------------------------------------------------------------- reference reader (protocol only)
 // refScan walks `in` according to the type name and says whether a well-formed field of that type
 // starts there, how many bytes it occupies, and the largest declared sequence length met on the way
@@ -979,7 +984,6 @@ func refScan(n *tyNode, in []byte, pos int, maxLen *int64) (int, bool) {
 	}
 	panic("refScan: unknown type " + n.kind)
 }
-
 
 // leading length prefix of a type, if the first thing it reads is one: the bytes that must come before
 // it (Option's Boolean) and the prefix kind
@@ -1275,10 +1279,10 @@ func pluginData(o *hx.Out, r *hx.Rng) {
 // NBT fields are not modelled here (the NBT codec is C01/C02); the counting wrappers are checked by the
 // predicate only: n written = bytes produced, n read = bytes consumed, value back, rest untouched.
 type nbtSample struct {
-	A int32            `nbt:"a"`
-	B string           `nbt:"b"`
-	C []int64          `nbt:"c"`
-	D map[string]int8  `nbt:"d"`
+	A int32               `nbt:"a"`
+	B string              `nbt:"b"`
+	C []int64             `nbt:"c"`
+	D map[string]int8     `nbt:"d"`
 	E struct{ X float64 } `nbt:"e"`
 }
 
@@ -1405,6 +1409,219 @@ func nbtFieldModel(o *hx.Out, r *hx.Rng) {
 	}
 }
 
+// ---------------------------------------------------------------- hostile declared counts
+// A length prefix declaring the largest count its type can carry, followed by 0..40 bytes, at the head of every
+// type of the universe that starts with a length prefix (Ary over every prefix type, Array, Option / Tuple / Opt
+// around them, String, ByteArray, BitSet).  The decode runs in a CHILD process under an address-space limit with
+// an allocation meter: decoding n input bytes may allocate at most allocPerByte*n + allocSlack bytes in total (ReadFrom alone is metered), and
+// the process must survive (a runtime `fatal error: out of memory` is not a recoverable panic).  The outcome
+// class is also compared with the model (case kind dec).  Classes: C06.alloc.ary / .string / .bytearray / .bitset.
+const (
+	allocChildAS = 2 << 30 // RLIMIT_AS of the child
+	allocPerByte = 1024
+	allocSlack   = 256 << 10 // the first element of each nesting level may itself preallocate (1024 elements / 64 KiB)
+)
+
+// the node whose length prefix comes first
+func leadNode(n *tyNode) *tyNode {
+	switch n.kind {
+	case "str", "ba", "bits", "ary":
+		return n
+	case "option", "opt1":
+		return leadNode(n.kids[0])
+	case "tup":
+		if len(n.kids) > 0 {
+			return leadNode(n.kids[0])
+		}
+	}
+	return nil
+}
+
+// an element that decodes successfully from no input at all (Opt with Has = false, the empty Tuple): an Ary of
+// such elements is not backed by the stream whatever it allocates (2^31-1 elements from five bytes ARE its
+// value); no protocol packet has one; kept out of these cases (C08 lists the spin)
+func zeroWidth(n *tyNode) bool {
+	switch n.kind {
+	case "opt0":
+		return true
+	case "opt1":
+		return zeroWidth(n.kids[0])
+	case "tup":
+		for _, k := range n.kids {
+			if !zeroWidth(k) {
+				return false
+			}
+		}
+		return true
+	}
+	return false
+}
+
+func hostileCount(kind string) uint64 {
+	switch kind {
+	case "i8":
+		return 127
+	case "u8":
+		return 255
+	case "i16":
+		return 32767
+	case "u16":
+		return 65535
+	case "vi", "i32":
+		return 1<<31 - 1
+	}
+	return 1 << 40 // vl, i64
+}
+
+func hostileLen(kind string) []byte {
+	n := hostileCount(kind)
+	switch kind {
+	case "vi", "vl":
+		return refLeb(n)
+	case "i8", "u8":
+		return refBE(n, 1)
+	case "i16", "u16":
+		return refBE(n, 2)
+	case "i32":
+		return refBE(n, 4)
+	}
+	return refBE(n, 8)
+}
+
+type allocCase struct {
+	t    Ty
+	seed uint64
+	in   []byte
+	cls  string
+}
+
+func allocOld(t Ty, seed uint64) *Val {
+	return genDest(hx.NewRng(seed), t, t.Gen(hx.NewRng(seed^0x9e37), -1), "nil")
+}
+
+// child: one case per line `index name seed hex`; answers `index outcome n left alloc`
+func allocChildMain() {
+	debug.SetMemoryLimit(1 << 30)
+	_ = syscall.Setrlimit(syscall.RLIMIT_AS, &syscall.Rlimit{Cur: allocChildAS, Max: allocChildAS})
+	leaves, comps := universe()
+	byName := map[string]Ty{}
+	for _, t := range append(append([]Ty{}, leaves...), comps...) {
+		byName[t.Name()] = t
+	}
+	sc := bufio.NewScanner(os.Stdin)
+	sc.Buffer(make([]byte, 1<<20), 1<<20)
+	out := bufio.NewWriter(os.Stdout)
+	for sc.Scan() {
+		f := strings.Fields(sc.Text())
+		if len(f) != 4 {
+			continue
+		}
+		t := byName[f[1]]
+		seed, _ := strconv.ParseUint(f[2], 10, 64)
+		in := hx.UnHex(f[3])
+		old := allocOld(t, seed)
+		var m0, m1 runtime.MemStats
+		var nn int64
+		var left int
+		var err error
+		dst, _ := t.NewDec(old) // the meter covers ReadFrom alone, not the harness's own value conversion
+		rd := bytes.NewReader(in)
+		runtime.ReadMemStats(&m0)
+		p := hx.Try(func() { nn, err = dst.ReadFrom(rd) })
+		runtime.ReadMemStats(&m1)
+		left = rd.Len()
+		fmt.Fprintf(out, "%s %s %d %d %d\n", f[0], outcome(p, err), nn, left, m1.TotalAlloc-m0.TotalAlloc)
+		out.Flush()
+		runtime.GC()
+	}
+}
+
+func allocCases(o *hx.Out, r *hx.Rng, all []Ty) {
+	var cases []allocCase
+	for _, t := range all {
+		pos0 := 0
+		root := parseTy(t.Name(), &pos0)
+		head, kind, ok := leadPrefix(root)
+		ln := leadNode(root)
+		if !ok || ln == nil || (ln.kind == "ary" && zeroWidth(ln.kids[0])) {
+			continue
+		}
+		cls := map[string]string{"ary": "ary", "str": "string", "ba": "bytearray", "bits": "bitset"}[ln.kind]
+		for _, extra := range []int{0, 3, 9, 40} {
+			in := append(append(append([]byte{}, head...), hostileLen(kind)...), r.Bytes(extra)...)
+			cases = append(cases, allocCase{t, r.Next(), in, cls})
+		}
+	}
+	results := make([]string, len(cases))
+	next, restarts := 0, 0
+	for next < len(cases) && restarts < 12 {
+		cmd := exec.Command(os.Args[0], "--alloc-child")
+		var inb bytes.Buffer
+		for i := next; i < len(cases); i++ {
+			fmt.Fprintf(&inb, "%d %s %d %s\n", i, cases[i].t.Name(), cases[i].seed, hexs(cases[i].in))
+		}
+		cmd.Stdin = &inb
+		var errb bytes.Buffer
+		cmd.Stderr = &errb
+		outb, _ := cmd.Output()
+		for _, line := range strings.Split(string(outb), "\n") {
+			f := strings.Fields(line)
+			if len(f) != 5 {
+				continue
+			}
+			i, e := strconv.Atoi(f[0])
+			if e == nil && i == next {
+				results[i] = strings.Join(f[1:], " ")
+				next++
+			}
+		}
+		if next < len(cases) { // the child died while decoding case `next`
+			msg := errb.String()
+			if k := strings.Index(msg, "\n\n"); k > 0 {
+				msg = msg[:k]
+			}
+			results[next] = "fatal 0 0 0 " + strings.ReplaceAll(msg, "\n", " | ")
+			next++
+			restarts++
+		}
+	}
+	for i, c := range cases {
+		old := allocOld(c.t, c.seed)
+		caseLine := fmt.Sprintf("dec %s %s %s", c.t.Name(), old.Show(true), hexs(c.in))
+		f := strings.SplitN(results[i], " ", 5)
+		if results[i] == "" {
+			o.Note("hostile-count case not run (too many child restarts): %s", caseLine)
+			continue
+		}
+		var alloc int64
+		fmt.Sscanf(f[3], "%d", &alloc)
+		switch f[0] {
+		case "fatal":
+			o.Case("alloc."+c.cls, true, caseLine, "dec fatal")
+			o.Fail("C06.alloc."+c.cls, "type=%s input=%s (%d bytes, declared count %d): the process died: %s", c.t.Name(), hexs(c.in), len(c.in), hostileCount(kindOf(c.t)), f[4])
+			continue
+		case "ok":
+			// a count the input cannot hold was accepted: report through the ordinary line (the model says err)
+			o.Case("alloc."+c.cls, true, caseLine, fmt.Sprintf("dec ok ? %s %s", f[1], f[2]))
+		default:
+			o.Case("alloc."+c.cls, true, caseLine, "dec "+f[0])
+			if f[0] == "panic" {
+				o.Fail("C06.panic.read", "type=%s dest=%s input=%s panic (hostile count)", c.t.Name(), old.Show(true), hexs(c.in))
+			}
+		}
+		if bound := int64(allocPerByte*len(c.in) + allocSlack); alloc > bound {
+			o.Fail("C06.alloc."+c.cls, "type=%s input=%s (%d bytes, declared count %d) allocated %d bytes, bound %d", c.t.Name(), hexs(c.in), len(c.in), hostileCount(kindOf(c.t)), alloc, bound)
+		}
+	}
+	o.Note("hostile declared counts: %d cases decoded in a child process (RLIMIT_AS %d MiB, %d restarts); allocation bound %d*n + %d KiB", len(cases), allocChildAS>>20, restarts, allocPerByte, allocSlack>>10)
+}
+
+func kindOf(t Ty) string {
+	pos0 := 0
+	_, kind, _ := leadPrefix(parseTy(t.Name(), &pos0))
+	return kind
+}
+
 // Marshal / Builder / Scan: fields in order; Scan ignores what is left
 func packets(o *hx.Out, r *hx.Rng, all []Ty) {
 	// packets built earlier and not yet consumed: building later packets must not change them
@@ -1492,6 +1709,10 @@ func packets(o *hx.Out, r *hx.Rng, all []Ty) {
 func main() {
 	// a broken implementation can misread a length and try to allocate gigabytes: die early (the check
 	// reports a harness that does not finish) instead of exhausting the machine
+	if len(os.Args) > 1 && os.Args[1] == "--alloc-child" {
+		allocChildMain()
+		return
+	}
 	lim := syscall.Rlimit{Cur: 4 << 30, Max: 4 << 30}
 	_ = syscall.Setrlimit(syscall.RLIMIT_AS, &lim)
 	o := hx.Open()
@@ -1620,6 +1841,7 @@ func main() {
 	nbtField(o, r)
 	packets(o, r, all)
 	nbtFieldModel(o, r)
+	allocCases(o, r, all)
 	o.Note("hostile-count inputs skipped (C08): %d", skippedHostile)
 	o.Note("NBT fields: predicate only (codec modelled under C01/C02); FixedBitSet and PluginMessageData: separate ops (size / extent come from the context)")
 }
